@@ -68,6 +68,7 @@ fn collect_headers(o: &mut Obs, hs: &[Header<'_>]) {
 
 fn req_call<'h, 'b>(req: &mut Request<'h, 'b>, op: Op, buf: &'b [u8], u: &'h mut [MaybeUninit<Header<'b>>]) -> St {
     let cfg = make_config(op.cfg);
+    note_inflight(op.entry, op.cfg, req.headers.len().max(op.ucap), buf);
     conv(match op.entry {
         Entry::ReqParse => req.parse(buf),
         Entry::ReqCfg => cfg.parse_request(req, buf),
@@ -78,6 +79,7 @@ fn req_call<'h, 'b>(req: &mut Request<'h, 'b>, op: Op, buf: &'b [u8], u: &'h mut
 
 fn resp_call<'h, 'b>(resp: &mut Response<'h, 'b>, op: Op, buf: &'b [u8], u: &'h mut [MaybeUninit<Header<'b>>]) -> St {
     let cfg = make_config(op.cfg);
+    note_inflight(op.entry, op.cfg, resp.headers.len().max(op.ucap), buf);
     conv(match op.entry {
         Entry::RespParse => resp.parse(buf),
         Entry::RespCfg => cfg.parse_response(resp, buf),
